@@ -16,6 +16,8 @@
 (*                 name, f, exc, args, form, nch]                          *)
 (*   P.exprs[e] = [kind, k, reads, args, name]                             *)
 (*   P.fns[f]   = [name, params, body, parent, nonlocals, globals]         *)
+(*                (f = 1: the function under test; parent = 0 and f > 1: a  *)
+(*                module-level function, called by name from anywhere)     *)
 (*   P.names    = all identifiers of the program; P.attrs = attribute names *)
 (* External functions:  T(k, v..) tracer: appends <<"T",k,<<v..>>>> to the  *)
 (* effect log, returns a fresh token;  D(k, v..) logs and returns the next  *)
@@ -53,7 +55,8 @@ VARIABLES pid,     \* index of the program of the batch this behaviour executes
           delx,    \* some `del` of an unbound variable has raised in this execution
           hb,      \* cells that currently hold a value bound by an `except ... as name` clause
           crossed, \* an exception has crossed an activation boundary (raised by a callee into its caller)
-          oc,      \* "outside the class": an exception raised by a call was caught by a handler of the caller
+          oc,      \* "outside the class": an exception raised by a call was caught by a handler of the caller, or a finally
+                   \* block running during propagation raised an exception of its own
           lrd,     \* cells read by the last step only inside the body of a lambda value it called (a subset of rd)
           lnode    \* ... and the statement that created that lambda (0 = the step called no lambda value)
 vars == <<pid, ctrl, envs, cells, heap, log, dec, status, cur, how, rd, wr, steps, inp, xlog, xnode, xfirst, delx, hb, crossed, oc, lrd, lnode>>
@@ -90,6 +93,9 @@ Binds(n) == LET d == ND(n) IN
 LocalsOf(f) ==
   (Range(FN(f).params) \cup UNION {Binds(n) : n \in {m \in 1..Len(P.nodes) : ND(m).fn = f}})
     \ (Range(FN(f).nonlocals) \cup Range(FN(f).globals))
+
+GlobalFn(name) == LET gs == {g \in 2..Len(P.fns) : FN(g).parent = 0 /\ FN(g).name = name} IN
+                  IF gs = {} THEN 0 ELSE CHOOSE g \in gs : TRUE
 
 (* ---- environments ------------------------------------------------------- *)
 RECURSIVE CellOf(_, _, _)
@@ -425,7 +431,9 @@ Exec(n) ==
       [] d.kind = "call" ->      \* tgt = g(args) | g(args) | return g(args): pushes a call frame
           LET fc == CellOf(envs, env, d.name)
               acs == [j \in 1..Len(d.args) |-> CellOf(envs, env, d.args[j])]
-              fv == IF fc = 0 THEN Unbound ELSE cells[fc]
+              \* a name bound in no activation may be a module-level function (fns with parent 0 other than the main one):
+              \* its activation has no enclosing activation
+              fv == IF fc = 0 THEN (IF GlobalFn(d.name) # 0 THEN <<"f", GlobalFn(d.name), 0>> ELSE Unbound) ELSE cells[fc]
               avs == [j \in 1..Len(d.args) |-> IF acs[j] = 0 THEN Unbound ELSE cells[acs[j]]] IN
           /\ IF fv = Unbound \/ \E j \in 1..Len(avs) : avs[j] = Unbound
              THEN Apply(Prop(ctrl, ExcV("NameError"), log, cells)) /\ UNCHANGED <<envs, dec>> /\ rd' = {}
@@ -433,7 +441,7 @@ Exec(n) ==
              THEN LET lx == EX(fv[2]) IN
                   /\ Len(d.args) = (IF lx.name = "" THEN 0 ELSE 1)      \* generator guarantees; otherwise not judged
                   /\ WithEvalX(n, lx.args[1], fv[3], log, IF lx.name = "" THEN <<>> ELSE << <<lx.name, avs[1]>> >>,
-                               {fc} \cup Range(acs), LAMBDA r :
+                               ({fc} \cup Range(acs)) \ {0}, LAMBDA r :
                         IF d.form = "return" THEN Apply(Prop(ctrl, <<"ret", r.v>>, r.s.log, cells)) /\ UNCHANGED envs
                         ELSE /\ ctrl' = c1 /\ log' = r.s.log /\ UNCHANGED <<envs, status>> /\ how' = ""
                              /\ IF d.form = "assign"
@@ -457,7 +465,7 @@ Exec(n) ==
                /\ envs' = Append(envs, newenv)
                /\ cells' = newcells
                /\ ctrl' = Append(c1, [Frame("call", FN(g).body, n, ne) EXCEPT !.cenv = env, !.tgt = d.tgt, !.form = d.form])
-               /\ UNCHANGED <<log, status>> /\ how' = "" /\ rd' = {fc} \cup Range(acs)
+               /\ UNCHANGED <<log, status>> /\ how' = "" /\ rd' = ({fc} \cup Range(acs)) \ {0}
                /\ wr' = {base + idx(nm) : nm \in Range(FN(g).params)}
       [] d.kind \in {"pass", "directive"} -> ctrl' = c1 /\ Quiet     \* a loop directive (set_loop_options) has no run-time effect
 
@@ -483,7 +491,11 @@ Step ==
      /\ lrd' = IF isLam THEN rd' \ ({fc} \cup acs) ELSE {}
      /\ lnode' = IF isLam THEN (CHOOSE m \in 1..Len(P.nodes) : ND(m).e = cells[fc][2]) ELSE 0
   /\ LET resumed == Top.i > Len(Top.blk) /\ Top.k = "finally"      \* a finally block re-raising its pending exception
-         cr == crossed \/ (how' = "exc" /\ NCalls(ctrl') < NCalls(ctrl) /\ status'[1] = "run") IN
+         cr == crossed \/ (how' = "exc" /\ NCalls(ctrl') < NCalls(ctrl) /\ status'[1] = "run")
+         \* a finally block that runs while an exception propagates raises an exception of its own (necessarily an
+         \* implicit one): what such a block does is outside the guarantee, and so is everything that follows from it
+         pend == \E i \in 1..Len(ctrl) : ctrl[i].k = "finally" /\ ctrl[i].comp[1] = "exc"
+         infin == how' = "exc" /\ ~resumed /\ pend IN
      /\ xlog' = IF how' = "exc" /\ ~resumed THEN Len(log') ELSE xlog
      /\ xnode' = IF how' = "exc" /\ ~resumed THEN cur' ELSE xnode
      /\ xfirst' = IF how' = "exc" /\ ~resumed /\ xfirst = 0 THEN cur' ELSE xfirst
@@ -491,7 +503,7 @@ Step ==
                              THEN {c \in wr' : cells'[c][1] = "x"} ELSE {})
      /\ delx' = (delx \/ (how' = "exc" /\ ~resumed /\ cur' # 0 /\ ND(cur').kind = "del"))
      /\ crossed' = cr
-     /\ oc' = (oc \/ (cr /\ how' = "exc" /\ status'[1] = "run" /\ ctrl'[Len(ctrl')].k = "handler"))
+     /\ oc' = (oc \/ infin \/ (cr /\ how' = "exc" /\ status'[1] = "run" /\ ctrl'[Len(ctrl')].k = "handler"))
 
 Init ==
   /\ pid \in 1..Len(Progs)
